@@ -766,6 +766,14 @@ def check_run(col, name, entry, X, kind, rank, k, seed, opts, rec, light=False):
             col.add(lit, dict(inputs=inputs, what=f"callback #{j} value vs the decomposition handed to the callback", entry=entry),
                     expect_fail=not close(mine, e * e))
         chk.count(key=(name, X.shape, kind, k, "cb", j), nontrivial=True)
+        if it["kind"] == "tr" and j == len(rec.cb) - 1 and j > 0 and not light:
+            # round 7: the sub-problem of EVERY mode as the tensordot / transpose / reshape pipeline on data (Model/Errors.v:tr_residual2_data) must equal
+            # the index-level ls_residual2 exactly on these cores; for the last mode it is the reported value
+            cores_ = it["cores"]
+            col.add(lambda P, cores_=cores_, e=e: f"(KTRData {P.t(X)} {P.ts(cores_)} {P.num(e)})",
+                    dict(inputs=inputs, what="tensor ring: the least-squares sub-problem of every mode as a tensordot / transpose / reshape pipeline on data vs the index-level residual (exact) "
+                                             "and the reported value", entry=entry), expect_fail=not close(mine, e * e))
+            chk.count(key=(name, X.shape, kind, k, "tr_data"), nontrivial=True)
         if not close(mine, e * e):
             chk.finding(entry, dict(inputs, callback_index=j), f"{name}: callback #{j} received error {e!r} (squared {e*e!r}) but the decomposition "
                         f"it received has squared error {mine!r}", "C06_callback_value_is_error_of_its_iterate", observed=e * e, expected=mine)
@@ -1595,7 +1603,7 @@ def _install_local_known():
 KIND_COST = {"KCP": (0.12, 0.32), "KTucker": (0.31, 0.93), "KParafac2": (0.5, 1.9), "KHooiHyp": (0.31, 0.9), "KTR": (0.32, 1.45), "KErrCalcFull": (0.12, 0.35),
              "KNormalize": (0.16, 0.16), "KHooi": (0.13, 0.33), "KCmtf": (0.31, 1.1), "KTrace": (0.013, 0.04), "KTuckerNormalize": (0.26, 0.26), "KEvents": (0.025, 0.09),
              "KSparsify": (0.08, 0.14), "KCPfast": (0.24, 0.7), "KSLoop": (0.015, 0.2), "KErrCalc": (0.18, 0.5), "KP2Len": (0.026, 0.24), "KP2Events": (0.09, 0.78),
-             "KDense": (0.1, 0.3), "KSweepV": (0.3, 0.9), "KIter": (0.35, 1.0), "KRLoop": (0.015, 0.2), "KNormSweep": (0.3, 0.9)}
+             "KDense": (0.1, 0.3), "KSweepV": (0.3, 0.9), "KIter": (0.35, 1.0), "KRLoop": (0.015, 0.2), "KNormSweep": (0.3, 0.9), "KTRData": (1.0, 4.0)}
 
 
 def balanced(cases, nsh):
@@ -1670,7 +1678,7 @@ def run(chk):
             st, rec = one_run(runner, X, rank, k, seed, o)
             nruns += 1
             chk.hist("algorithm", name); chk.hist("order", len(shape)); chk.hist("data", kind); chk.hist("outcome", st)
-            if st != "ok" and "math domain error" in str(rec):
+            if st != "ok" and "math domain error" in str(rec) and name.startswith(("tucker", "partial_tucker")):
                 # math.sqrt of a negative number inside an error formula (HOOI's shortcut uses math.sqrt): no finite error value can be
                 # reported for a valid input - the finiteness clause, not a degenerate problem
                 chk.finding(entry, describe(name, entry, X, kind, rank, k, seed, o), f"{name}: computing the reported error raised {rec} "
